@@ -97,6 +97,8 @@ def iterator_exit(b, lp):
                 neg, src = b.switch_source(a)
                 if src[0] == "discr" and src[1]["l"] == dl:
                     none_t = [tb for v, tb in ta["targets"] if v == 0]
+                    if not none_t and [v for v, _tb in ta["targets"]] == [1] and ta["otherwise"] is not None:
+                        none_t = [ta["otherwise"]]   # `while let Some(x) = it.next()`: only the Some value is listed
                     if none_t and none_t[0] not in lp.blocks:
                         leaves = True
         if not leaves:
